@@ -22,6 +22,7 @@ RULE = (
     "between two samples of one file, outside the bounds. Oracle: dict model index -> normalised value. "
     "Non-trivial: a query endpoint on a file boundary, or a forward-fill query whose answer file holds a later "
     "sample, or bounds over a file whose keys differ in decimal length."
+    ' Also: back-filled samples below everything written with readers that looked at the channel before, unsorted batches in one call, numpy integer index arguments, integer-valued float / numpy parameters, prefixes such as tmp102 / duty50%% / x.y, dictionaries nested three levels, a young unreadable file (another process writing) during the queries, directed digit-count changes inside inner files of a multi-file read.'
 )
 ASSUMPTIONS = ["overlay build of /repo; h5py 3.16 from /venv",
                "values are limited to what h5py can store (object arrays of str for lists of strings)"]
